@@ -12,6 +12,7 @@ def accounted : List (BlockOp × Reason) := [
   (⟨"command/config.go", "newIPFileOpener", "go", "func", "none"⟩, .spawn),
   (⟨"command/config.go", "stdinReader.Read", "recv", "s.in.loaded", "none"⟩, .inputRead),
   (⟨"command/log/unique_logger.go", "UniqueLogger.uniqResults", "go", "func", "none"⟩, .spawn),
+  (⟨"command/root.go", "lockedPacketMethod.ProcessPacketData", "call", "m.mu.Lock", "none"⟩, .boundedSection),
   (⟨"command/root.go", "startScanEngine", "call", "wg.Wait", "none"⟩, .awaitsAccounted),
   (⟨"command/root.go", "startScanEngine", "go", "func", "none"⟩, .spawn),
   (⟨"command/root.go", "startScanEngine", "go", "func", "none"⟩, .spawn),
